@@ -3,8 +3,8 @@
    (hypotheses of the theorems; sampled against scipy.stats.norm.ppf at run time). *)
 From Coq Require Import Reals QArith List.
 From Zepid Require Import Base.Wald Base.QSum Base.Rows Model.Estimators Model.Variance Proofs.VarianceProofs
-     GenProofs.GenProofs_calc GenProofs.GenProofs_ic GenProofs.GenProofs_pool GenProofs.GenProofs_wprod.
-From ZepidGen Require Import Gen_calc_R Gen_ic_Q Gen_aipw_Q Gen_pool_Q Gen_wprod_Q.
+     GenProofs.GenProofs_calc GenProofs.GenProofs_ic GenProofs.GenProofs_pool GenProofs.GenProofs_wprod GenProofs.GenProofs_xfvar.
+From ZepidGen Require Import Gen_calc_R Gen_ic_Q Gen_aipw_Q Gen_pool_Q Gen_wprod_Q Gen_xfvar_Q.
 Import ListNotations.
 
 Definition zq_ok (zq : R -> R) : Prop :=
@@ -155,6 +155,14 @@ Proof.
   split; [intros j; exact (gen_fit_weight_no_missing stab t n c1 c0 r j)|]. intros j1 j2; exact (gen_fit_weight_plain stab t n c1 c0 r j1 j2).
 Qed.
 
+(* the per-partition variance of the cross-fit AIPTW difference measures in the CURRENT source (the `splits` branch of
+   aipw_calculator) is the model: mean over the parts of the within-part sample variance of y1 - y0 - estimate, over n *)
+Theorem C06_src_crossfit_aiptw_variance : forall est parts n, xf_aipw_var_Q est parts n == xf_aipw_var est parts n.
+Proof. exact gen_xf_aipw_var. Qed.
+Theorem C06_crossfit_aiptw_variance_nonneg : forall est parts n,
+  parts <> [] -> Forall (fun p => (2 <= length p)%nat) parts -> 0 < n -> 0 <= xf_aipw_var est parts n.
+Proof. exact xf_aipw_var_nonneg. Qed.
+
 Example C06_nonvacuous : fst (pool true [1#2; 1#4; 3#4] [1#100; 1#100; 4#100]) == 1 # 2 /\
   snd (pool true [1#2; 1#4; 3#4; 1] [1#100; 1#100; 4#100; 0]) == 157 # 1600 /\
   var_ddof1 [1; 2; 4] == 7 # 3 /\ ic_var [Some 1; None; Some 2; Some 4] 4 == 7 # 12.
@@ -194,3 +202,5 @@ Print Assumptions C06_src_aipw_pseudo.
 Print Assumptions C06_src_pool_median.
 Print Assumptions C06_src_pool_mean.
 Print Assumptions C06_src_iptw_fit_weight.
+Print Assumptions C06_src_crossfit_aiptw_variance.
+Print Assumptions C06_crossfit_aiptw_variance_nonneg.
